@@ -131,5 +131,47 @@ pub fn vx_ctid_from_text(t: &VxText) -> (r: VxChar4Result) ensures r.v == spec_p
 //@|    broadcast use axiom_pseudo_injective, axiom_pseudo_truncated;
 //@ end
 
+// ---- APID pseudonyms: the statement `if !apid_map.contains_key(cur_apid) { .. insert .. }` of apid_ctid_anon (one map per ECU;
+// prefix "A"); `ApidData { apid, ctid_map: HashMap::new() }` is replaced by a stand-in carrying the pseudonym (R12) ----
+pub struct VxApidData { pub apid: DltChar4 }
+pub fn vx_new_apid_data(apid: DltChar4) -> (r: VxApidData) ensures r.apid == apid { VxApidData { apid } }
+pub trait VApidMap: Sized {
+    spec fn m(&self) -> Map<DltChar4, DltChar4>;     // APID -> pseudonym
+    fn contains_key(&self, k: &DltChar4) -> (r: bool) ensures r == self.m().dom().contains(*k);
+    fn len(&self) -> (r: usize) requires self.m().dom().finite(), ensures r == self.m().dom().len();
+    fn insert(&mut self, k: DltChar4, v: VxApidData) ensures final(self).m() == old(self).m().insert(k, v.apid);
+}
+pub open spec fn apid_wf<M: VApidMap>(mp: &M) -> bool {
+    &&& mp.m().dom().finite()
+    &&& forall|k: DltChar4| mp.m().dom().contains(k) ==> exists|i: int| 1 <= i <= mp.m().dom().len() && #[trigger] spec_pseudo(0x41, i) == mp.m()[k]
+}
+pub open spec fn apid_injective<M: VApidMap>(mp: &M) -> bool {
+    forall|a: DltChar4, b: DltChar4| mp.m().dom().contains(a) && mp.m().dom().contains(b) && #[trigger] mp.m()[a] == #[trigger] mp.m()[b] ==> a == b
+}
+#[verifier::external_body]
+pub fn vx_fmt_a03(n: usize) -> (r: VxText) ensures r.n == n { unimplemented!() }
+#[verifier::external_body]
+pub fn vx_apid_from_text(t: &VxText) -> (r: VxChar4Result) ensures r.v == spec_pseudo(0x41, t.n as int) { unimplemented!() }
+//@ extract src/plugins/anonymize.rs region `if !apid_map.contains_key(cur_apid) {` .. `if !apid_map.contains_key(cur_apid) {` in AnonymizePlugin::apid_ctid_anon
+//@   rules R1 R3 R4 R5
+//@   sig pub fn apid_anon<M: VApidMap>(apid_map: &mut M, cur_apid: &DltChar4)
+//@   sub R11 `DltChar4::from_str(` => `vx_apid_from_text(`
+//@   sub R11 `format!("A{:03}",` => `vx_fmt_a03(`
+//@   sub R11 `.unwrap_or_else(|_| DltChar4::from_buf(b"A99A"))` => `.vx_or_fallback()`
+//@   sub R12 `ApidData { apid: new_apid, ctid_map: HashMap::new(), }` => `vx_new_apid_data(new_apid)`
+//@   spec
+//@|    requires
+//@|        apid_wf(old(apid_map)), apid_injective(old(apid_map)),
+//@|        old(apid_map).m().dom().len() < 0x1_0000_0000,
+//@|        old(apid_map).m().dom().len() < 999, //@only:excl
+//@|    ensures
+//@|        apid_wf(final(apid_map)), // O:anon.apid.wf
+//@|        final(apid_map).m().dom().contains(*cur_apid), // O:anon.apid.present
+//@|        forall|k: DltChar4| old(apid_map).m().dom().contains(k) ==> final(apid_map).m().dom().contains(k) && final(apid_map).m()[k] == old(apid_map).m()[k], // O:anon.apid.stable
+//@|        apid_injective(final(apid_map)), // O:anon.apid.injective
+//@   hint start
+//@|    broadcast use axiom_pseudo_injective, axiom_pseudo_truncated;
+//@ end
+
 fn main() {}
 } // verus!
